@@ -1,6 +1,7 @@
 import Driver.Proto
 import Driver.CifArg
 import CifModel.Model.StoreStep
+import CifModel.Model.StoreFault
 /-
   family `store` (C04, C05) — and, through Driver/Fam/Iter.lean, family `iter` (C06): one request = one whole history.
   Request / answer formats: see harness/x_store.c (the executor of the real code); this file produces the same text from
@@ -105,13 +106,40 @@ def parseOp : List String → Option (Op × List String)
   | "itabort" :: i :: r => do pure (.itAbort (← parseNat i), r)
   | _ => none
 
-def parseOps : Nat → List String → Option (List Op)
+/-- family `storefault`: what tools/gen/storefault.py's `model_request` writes in front of an op after looking at the
+    implementation's observation — `mark:<f>`: the op ran to its normal end (the injected fault did not fire, f = 0, or was
+    absorbed, f = 1); `faulted:<rc>`: the fault fired and the call returned the error code rc -/
+inductive Mark where
+  | plain
+  | mark (f : Nat)
+  | faulted (rc : Nat)
+
+def parseMark (t : String) : Option Mark :=
+  match t.splitOn ":" with
+  | ["mark", f] => f.toNat?.map Mark.mark
+  | ["faulted", rc] => rc.toNat?.map Mark.faulted
+  | _ => none
+
+def parseOps : Nat → List String → Option (List (Mark × Op))
   | _, [] => some []
   | 0, _ => none
-  | fuel + 1, toks => do
-      let (op, r) ← parseOp toks
-      let ops ← parseOps fuel r
-      pure (op :: ops)
+  | fuel + 1, t :: rest =>
+    match parseMark t with
+    | some m => do
+        let (op, r) ← parseOp rest
+        let ops ← parseOps fuel r
+        pure ((m, op) :: ops)
+    | none => do
+        let (op, r) ← parseOp (t :: rest)
+        let ops ← parseOps fuel r
+        pure ((Mark.plain, op) :: ops)
+
+/-- the harness appends one (dead) entry to the handle table of an op that can return a handle, also when the call failed -/
+def pushDead (w : World) : Op → World
+  | .mkBlock .. | .getBlock .. | .mkFrame .. | .getFrame .. => { w with chs := w.chs ++ [none] }
+  | .mkLoop .. | .catLoop .. | .itemLoop .. => { w with lhs := w.lhs ++ [none] }
+  | .itOpen _ => { w with its := w.its ++ [none] }
+  | _ => w
 
 -- ---- showing ---------------------------------------------------------------------------------------------------------
 
@@ -162,17 +190,33 @@ def observe (w : World) (last : List (Option String)) : String × List (Option S
       match w.cifs.getD i none with
       | none => (acc.1, acc.2 ++ [none])
       | some s =>
-        let d := showDump s
+        let d := showDump s ++ (if s.db.rowsBelowB then "" else " !rows-above-last_row_num")
         if (last.getD i none) == some d then (acc.1 ++ " " ++ toString i ++ ":=", acc.2 ++ [some d])
         else (acc.1 ++ " " ++ toString i ++ ":" ++ d, acc.2 ++ [some d])) ("", [])
   (" ; ac=" ++ bits ++ txt, last')
 
-def runOps (ops : List Op) : String :=
-  let (_, _, out) := ops.foldl (fun (acc : World × List (Option String) × String) op =>
+def runOps (ops : List (Mark × Op)) : String :=
+  let (_, _, out) := ops.foldl (fun (acc : World × List (Option String) × String) mo =>
       let (w, last, out) := acc
-      let (w1, r) := step w op
-      let (obs, last1) := observe w1 last
-      (w1, last1, out ++ showResult op r ++ obs)) (({} : World), [], "st")
+      let (m, op) := mo
+      match m with
+      | .faulted rc =>
+        -- the model of the documented failure path (Model/StoreFault.lean); an op that is not executed at all stays skipped
+        match target w op with
+        | some _ =>
+          let (w1, _) := stepFaultAt w op (.inside false)
+          let w2 := pushDead w1 op
+          let (obs, last1) := observe w2 last
+          (w2, last1, out ++ " | rc=" ++ toString rc ++ " !fault1" ++ obs)
+        | none =>
+          let (w1, r) := step w op
+          let (obs, last1) := observe w1 last
+          (w1, last1, out ++ showResult op r ++ " !fault1" ++ obs)
+      | _ =>
+        let (w1, r) := step w op
+        let (obs, last1) := observe w1 last
+        let tag := match m with | .mark f => " !fault" ++ toString f | _ => ""
+        (w1, last1, out ++ showResult op r ++ tag ++ obs)) (({} : World), [], "st")
   out
 
 def handle : Handler := fun args =>
